@@ -120,7 +120,7 @@ class C06(Prop):
     rule = ('tree-shaped (hence acyclic) programs: each handler is a script of yield / call(e) / fire+wait(e object) / '
             'fire+wait("name") / fire actions, nested to depth<=3 (quick) or 4, time-outs from {none,0,1,2,5} with or without '
             'the caller catching TimeoutError, callees that return, yield k times, or raise before/after yielding, 1-2 '
-            'handlers per event, 1-3 root events in flight; run under real run() (time-outs count loop iterations) and '
+            'handlers per event, 1-3 root events in flight, event classes with success_channels, callers/callees on different channels; plus enumerated nestings of 30..1500 (thorough 3000) calls; run under real run() (time-outs count loop iterations) and '
             'tick(); non-trivial = (call depth >=2 or >=2 roots) and (a callee with a raising handler, or a finite time-out '
             'that raced the callee: resumed/timed out within one iteration of the limit); distinct = spec hash')
     assumptions = ('each event name is used at exactly one call site, so by-name waits are unambiguous',
